@@ -38,8 +38,21 @@ Definition build_ext_transport (g : grid) (rg : option rgrid) (p : transport_p) 
                     take_rows g rg (ap_map a) (Some (tp_n1 p)) RU (neg_takes mn))))).
 
 Definition build_storage (g : grid) (rg : option rgrid) (p : storage_p) (per : option (list Z * list Z)) : option aprob :=
+  if negb (storage_ctor_ok p) then None else
   obind rg (fun rg => obind (storage g rg p) (fun a =>
     if Nat.eqb (rg_T rg) 0 then Some a else apply_periodic g per a)).
+
+(* the builder refuses what Storage.__init__ refuses: an end level outside [0, size] never reaches the optimisation *)
+Lemma build_storage_some_ctor_ok g rg p per a : build_storage g rg p per = Some a -> storage_ctor_ok p = true.
+Proof. unfold build_storage. destruct (storage_ctor_ok p); [reflexivity | discriminate]. Qed.
+
+Lemma build_storage_some_levels_ok g rg p per a : build_storage g rg p per = Some a ->
+  sp_start p <= sp_size p /\ 0 <= sp_end p /\ sp_end p <= sp_size p.
+Proof.
+  intros H. apply build_storage_some_ctor_ok in H. unfold storage_ctor_ok in H.
+  apply andb_true_iff in H. destruct H as [H H3]. apply andb_true_iff in H. destruct H as [H1 H2].
+  repeat split; apply Qle_bool_iff; assumption.
+Qed.
 
 Definition build_orderbook (name node : string) (full_exec : bool) (rg : option rgrid) (orders : list order) : option aprob :=
   obind rg (fun rg => Some (orderbook name node full_exec rg orders)).
